@@ -43,6 +43,31 @@ CHECKS = {
         note=TB + "; audited allowances (rules/allow_panics.json) carry human-stated invariants; preconditions: valid board and scope.",
         technique="static analysis: call-graph SCC (recursion freedom), cast/dominance rules, potential-panic site audit over MIR",
     ),
+    "C03": dict(
+        cat="other",
+        text="Necessary structural conditions in Showdown::new / winner_len decided for every input by provenance and "
+             "edge-cut dominance: the evaluated hand is exactly {p[0],p[1],board[0..4]}; None is returned under "
+             "contains(board,p[0]) || contains(board,p[1]) and before evaluation; single-pass minimum discipline (best "
+             "starts at u16::MAX, reset+clear under <, insert under <= with ties kept, a new best is always inserted); "
+             "the seat index flows only into the winner set; the win flag is false at construction, set for members of "
+             "the winner set, and winner_len counts it over all players. The full winner relation over all boards and "
+             "tie patterns is NOT decided.",
+        ref="DESIGN.md §4 C03",
+        note=TB + "; recognises the single-pass-minimum idiom present in the tree (a redesign fails closed).",
+        technique="static analysis: argument provenance, edge-cut guard (dominance) rules, use-site audit of the position value on MIR",
+    ),
+    "C04": dict(
+        cat="other",
+        text="Two clauses. (1) 'afterwards stays exhausted' is proved for every input: no path from entry to an exhausted "
+             "None return writes (or mutably borrows) any iterator field that a branch on that path reads, and the next() "
+             "wrapper writes no state; with no other state (C15) the exhaustion predicate stays true. (2) scope(a,b,c,d) "
+             "parameters reach the iterator's start/end fields by dataflow, new() defaults are (0,1,L-1,L) for the deck "
+             "length L, and the exhaustion test compares (turn,end turn) and (river,end river). The position arithmetic "
+             "(lexicographic order, rollover, exact scope edges) is NOT decided.",
+        ref="DESIGN.md §4 C04",
+        note=TB + "; roles of private fields are derived from scope()'s public parameter order, not from names.",
+        technique="static analysis: write-freedom (effect) analysis on the chop entry->exhausted return, dataflow of scope parameters",
+    ),
     "C07": dict(
         cat="proof",
         text="Complete for the stated mechanism: the interval partition of hand_type() is extracted from MIR and "
